@@ -87,6 +87,10 @@ type Plan struct {
 	Empty       map[int]int // chunk index -> number of (0,nil) reads before that chunk (<=2)
 	EOFWithLast bool        // final chunk is returned together with io.EOF
 	Fault       Fault
+	// TailChunk > 0: the data goes on beyond the last cut (a plan drawn over a prefix of a long
+	// input) and is delivered in chunks of this size from there on - without a cut per chunk, which
+	// for 200 MB of input delivered byte by byte would be gigabytes of plan.
+	TailChunk int
 }
 
 func (p Plan) String() string {
@@ -123,6 +127,9 @@ func (p Plan) Sig() uint64 {
 	}
 	mix(uint64(p.Fault.Kind)<<40 | uint64(p.Fault.Off)<<8 | uint64(p.Fault.Extra))
 	mix(uint64(p.Fault.ErrKind) + 3)
+	if p.TailChunk > 0 {
+		mix(uint64(p.TailChunk) << 4)
+	}
 	if p.Fault.WithData {
 		mix(11)
 	}
@@ -299,6 +306,11 @@ func (r *Reader) read(p []byte) (int, error) {
 	end := len(r.data)
 	if r.ci < len(r.plan.Cuts) {
 		end = r.plan.Cuts[r.ci]
+	} else if tc := r.plan.TailChunk; tc > 0 && len(r.plan.Cuts) > 0 {
+		last := r.plan.Cuts[len(r.plan.Cuts)-1]
+		if e := last + ((r.pos-last)/tc+1)*tc; e < end {
+			end = e
+		}
 	}
 	if lim := r.limit(); lim < end {
 		end = lim
